@@ -11,6 +11,7 @@ Contract classes (from the trait documentation in src/lib.rs and the property st
 LEN(self) is the summary of the type's own `len()` (so `self.n`, `self.len()`, `self.bv.len()` agree).
 """
 import collections
+import re
 
 from .core import *
 from .report import Inst
@@ -447,7 +448,7 @@ def rule_G(FA):
                     if st not in ('ok', 'note'):
                         code = '|over-strict' if ('rejects a read' in expl or 'over-strict' in expl or 'largest symbol rejected' in expl) else \
                             '|under-strict' if ('under-strict' in expl or 'one past' in expl) else '|unguarded' if expl.startswith('no dominating') else '|other'
-                    inst = Inst('R-G', 'R-G|%s|%s:%s%s' % (fkey, cls, P[1], code), st, where, expl, props,
+                    inst = Inst('R-G', 'R-G|%s|%s:#%d%s' % (fkey, cls, pos, code), st, where, expl, props,
                                 sample={'accept_condition': [fmt_atom(a) for a in atoms], 'class': cls, 'argument': show(P)})
                     if st == 'violation':
                         worst = inst
@@ -565,13 +566,21 @@ def rule_SIB(FA):
                     out.append(Inst('R-SIB', key, 'ok', f['span'], 'same validation atoms as its siblings', props,
                                     nontrivial=bool(v), sample={'atoms': list(v)}))
                 else:
-                    key = key + '|' + '; '.join(sorted(set(v or ()) ^ set(best)))
+                    key = key + '|' + '; '.join(_stable_atoms(FA, base, sorted(set(v or ()) ^ set(best))))
                     out.append(Inst('R-SIB', key, 'violation', f['span'],
                                     'validates differently from its siblings: accepts under {%s}; %s::%s accepts under {%s}' % (
                                         '; '.join(v) if v is not None else '<no accepting return>',
                                         refm[0].split('::')[-1], refm[1], '; '.join(best)), props,
                                     sample={'reference': list(best), 'this': list(v or [])}))
     return out
+
+
+def _stable_atoms(FA, base, atoms):
+    """Atom strings for an instance key: private field names are replaced by their position in the struct, so renaming a
+    field does not turn a listed finding into a new one."""
+    adt = FA.adts.get(base) or {}
+    idx = {x['name']: i for i, x in enumerate(adt.get('fields', []))}
+    return sorted(re.sub(r'self\.([A-Za-z_]\w*)', lambda m: 'self.#%d' % idx[m.group(1)] if m.group(1) in idx else m.group(0), a) for a in atoms)
 
 
 # ---------------------------------------------------------------- R-TW
